@@ -46,6 +46,27 @@ struct Codec<unsigned char> {
     static unsigned char enc(long v) { return (unsigned char)v; }
     static long dec(const unsigned char& x) { return x; }
 };
+/// equality is NOT identity of representation for these two: 0.0 == -0.0 with different
+/// bytes, and a key whose operator== ignores a member.  compare_exchange is specified by
+/// equality (operator==), so an `expected` that is equal but not identical must succeed.
+template<>
+struct Codec<double> {
+    static double enc(long v) { return (double)v; }
+    static double expect(long v) { return v == 0 ? -0.0 : (double)v; }
+    static long dec(const double& x) { return (long)x; }
+};
+struct Keyed {
+    int32_t key;
+    int32_t hint;  // a cache: not part of the value
+    bool operator==(const Keyed& o) const { return key == o.key; }
+};
+static_assert(std::is_trivially_copyable<Keyed>::value, "");
+template<>
+struct Codec<Keyed> {
+    static Keyed enc(long v) { return Keyed{(int32_t)v, (int32_t)(v * 7 + 1)}; }
+    static Keyed expect(long v) { return Keyed{(int32_t)v, -12345}; }
+    static long dec(const Keyed& x) { return x.key; }
+};
 template<>
 struct Codec<std::string> {
     static std::string enc(long v)
@@ -63,6 +84,15 @@ struct Codec<std::string> {
         if (x != enc(v)) gsim::fail("torn_value", "the register returned a mixed string");
         return v;
     }
+};
+
+template<class T, class = void>
+struct Expect {
+    static T of(long v) { return Codec<T>::enc(v); }
+};
+template<class T>
+struct Expect<T, std::void_t<decltype(Codec<T>::expect(0L))>> {
+    static T of(long v) { return Codec<T>::expect(v); }
 };
 
 struct RegModel {
@@ -161,7 +191,7 @@ struct WL {
                     break;
                 }
                 default: {
-                    T expect = C::enc(op.b);
+                    T expect = Expect<T>::of(op.b);  // equal to, not necessarily identical with
                     int e = hb(OP_CAS, op.b, op.c);
                     bool ok = ag->compare_exchange(expect, C::enc(op.c));
                     he(e, ok ? 1 : 0, C::dec(expect));
@@ -239,10 +269,12 @@ void run()
     for (int t = 0; t < gsim::prog_nthreads(); t++) total += gsim::prog_len(t);
     if (total > 20) gsim::fail("harness", "history too long");
     gsim::enable_fault(gsim::F_SPURIOUS_TRYLOCK, gsim::knob("spurious_try", 0, 1) * 100);
-    switch (gsim::knob("elem", 0, 3)) {
+    switch (gsim::knob("elem", 0, 5)) {
         case 0: run_t<long>(); break;
         case 1: run_t<Pair>(); break;
         case 2: run_t<unsigned char>(); break;
+        case 3: run_t<double>(); break;
+        case 4: run_t<Keyed>(); break;
         default: run_t<std::string>(); break;
     }
 }
